@@ -134,6 +134,22 @@ def c12_claim(R):
                         if x.func.attr == "add" and dotted(x.func.value) == "self._owned_solvers":
                             ok_own = True
                 rets = [r for r in n.body if isinstance(r, ast.Return)]
+                if rets and isinstance(rets[-1].value, ast.Name):
+                    # the value returned for an un-owned child is unconditionally a fresh branch of it
+                    defs = [st for st in n.body if isinstance(st, ast.Assign) and ast.unparse(st.targets[0]) == rets[-1].value.id]
+                    p1 = util.func_param(claim, 1)
+                    R.check(
+                        len(defs) == 1
+                        and isinstance(defs[0].value, ast.Call)
+                        and isinstance(defs[0].value.func, ast.Attribute)
+                        and defs[0].value.func.attr == "branch"
+                        and ast.unparse(defs[0].value.func.value) == p1,
+                        m,
+                        defs[0] if defs else n,
+                        "_claim: an un-owned child is always branched before it is handed out",
+                        f"_claim hands out `{norm(defs[0].value) if defs else None}` for a child it does not own: in some "
+                        f"case the shared child itself is returned and then modified in place",
+                    )
                 if rets:
                     rv = rets[-1].value
                     R.check(
@@ -919,6 +935,16 @@ def c15_merge(R):
         "composite merge no longer merges combined_noncommons[0] with the rest under merge_conditions",
         construct="CompositeFrontend.merge noncommon merge",
     )
+    if len(calls) == 1:
+        facts = [ast.unparse(t) for t, pol in guards.guards_of(calls[0])]
+        R.check(
+            all(f in ("len(combined_noncommons)", "combined_noncommons", "common_ancestor is not None") for f in facts),
+            tree.mod(CO),
+            calls[0],
+            "the merge conditions are applied whenever there is any input (even if all children are shared)",
+            f"the noncommon merge (the only place the merge conditions are added) runs only under {facts}: when every "
+            f"child is shared the Or of the conditions is never added",
+        )
     lst = [n for n in walk_no_nested(cmg) if isinstance(n, ast.ListComp) and "cs._solver_list" in ast.unparse(n)]
     ok = any(ast.unparse(n.generators[-1].iter) in ("[self, *others]", "[self] + others") for n in lst)
     R.check(
